@@ -26,7 +26,7 @@ func (world) Rule(p string) string {
 	case "C19":
 		return "one run = a receiving node (real lib/grandpa.Service over real dot/state BlockState+GrandpaState on a simulated disk; authority lists of 1-7 keys, optionally with keys listed several times, 0-2 authority-set changes applied at tape-chosen moments) and a Byzantine block server that attaches 1-4 GRANDPA justifications to blocks of a generated tree of real headers (<= 10 blocks, forks, with and without digest items). Each justification is built with the real primitives types and the real SCALE encoder, signed with real ed25519 keys over the real localized payload, from a tape-chosen menu: votes on the target, on descendants, below it, on other forks; exactly enough / one too few voters; voters listed twice, equivocations, non-members, garbage signatures, signatures for another round / set id / message kind / by another key; commit target or block asked for differing from the precommit GHOST; missing, extra, duplicated ancestry headers; mismatched block numbers. The encoded bytes are handed to Service.VerifyBlockJustification (32-bit numbers, the sync import path) and to DecodeGrandpaJustificationVerifyFinalizes instantiated with 32-bit and 64-bit block numbers (weighted voter sets with repeated ids there), each in the built order and in 1-2 tape-chosen permutations of precommits and headers. Oracle: an independent predicate over the true tree (distinct members with valid signatures for the justification's round and the set of the block number; voters' listed weights summed; weight by the GRANDPA definition with equivocators counted everywhere; precommit GHOST from the lowest precommit equals the target and the block asked for; supplied headers are exactly the blocks between the lowest precommit and every precommit). accepted <=> predicate for justifications made only of member precommits with valid signatures; with foreign or badly signed entries only 'must reject when the validly signed member weight on the target is no supermajority'; verdict equal across permutations, across both number widths and between service and generic path. Non-trivial = at least one deviation from the plain justification or one accepted justification with precommits at different heights; distinct = distinct sequence of (deviation set, verdict) event kinds. A quarter of the runs use bushy trees (many short sibling forks, signers spread over the leaves), a fifth a merge-shape tree (a base with children P and Q, P with two or three voted children, Q with one) so that a supermajority only exists after the weights of sibling subtrees are merged."
 	case "C20":
-		return "one run = a generated block tree (1-8 blocks, forks, tape-permuted hashes, base number 0/1/7/1000) behind a block-store stub, 1-7 voters (unit weights, or weights 1-5), and a multiset of prevotes and precommits (per voter and phase: one vote, none, an equivocation with 2 or 3 different votes while the equivocating weight stays <= f; a vote from outside the voter set; duplicates) delivered to two real finality-grandpa Round instances in two tape-chosen orders. After every delivery (order A always, order B per tape) Round.State() and Round.PrecommitGHOST() are compared with GrandpaDefs computed from the votes delivered so far: prevote-GHOST, precommit-GHOST and finalized for all weights; estimate and completable for unit weights from the existential definition (enumeration of all completions: unseen voters vote anything or equivocate, seen voters may become equivocators, never more than f equivocators; also for a not yet known child of the prevote-GHOST). At the end both rounds must be in the same state. Non-trivial = both phases reached a supermajority of seen weight, or a reorder/duplicate/equivocation fired; distinct = distinct sequence of delivery kinds and final state."
+		return "one run = a generated block tree (1-8 blocks, forks, tape-permuted hashes, base number 0/1/7/1000) behind a block-store stub, 1-7 voters (unit weights, or weights 1-5, then a third of the time with one voter named twice in the weight distribution, its parts summing to its weight), and a multiset of prevotes and precommits (per voter and phase: one vote, none, an equivocation with 2 or 3 different votes while the equivocating weight stays <= f; a vote from outside the voter set; duplicates) delivered to two real finality-grandpa Round instances in two tape-chosen orders. After every delivery (order A always, order B per tape) Round.State() and Round.PrecommitGHOST() are compared with GrandpaDefs computed from the votes delivered so far: prevote-GHOST, precommit-GHOST and finalized for all weights; estimate and completable for unit weights from the existential definition (enumeration of all completions: unseen voters vote anything or equivocate, seen voters may become equivocators, never more than f equivocators; also for a not yet known child of the prevote-GHOST). At the end both rounds must be in the same state. Non-trivial = both phases reached a supermajority of seen weight, or a reorder/duplicate/equivocation fired; distinct = distinct sequence of delivery kinds and final state."
 	}
 	return ""
 }
